@@ -38,7 +38,9 @@ RULE = ("Sessions through TorSocksEndpoint.connect / socks.resolve / socks.resol
         "(= every segmentation x hang-up at every chunk boundary). Every case also asks the SOCKS protocol's "
         "when_done() three times (right after connecting, before the hang-up, after it), and the fake proxy "
         "endpoint reports its connection either at once, after the exchange but before the hang-up, or only "
-        "after the hang-up. Non-trivial = the method reply was accepted and "
+        "after the hang-up. The fake transport either reports the client's own loseConnection() later (as a "
+        "reactor does) or synchronously from inside the call (sync_close). Names in ATYP-3 replies are 0..255 "
+        "arbitrary octets 0x01..0xff (ASCII, latin-1, valid and invalid UTF-8). Non-trivial = the method reply was accepted and "
         "either a chunk boundary falls strictly inside the request reply or the chunk carrying the reply's last "
         "byte also carries application bytes; distinct = distinct canonical JSON of the case.")
 ASSUMPTIONS = [
@@ -61,6 +63,14 @@ ASSUMPTIONS = [
     "when_done() (the route resolve()/TorSocksEndpoint.connect() use themselves) asked again late must report "
     "the same result object / the same error class and code as when first asked, and connect()/resolve() over a "
     "proxy endpoint whose own connect() Deferred fires late must end like the early observer did",
+    "a transport may call connectionLost(ConnectionDone) from inside the client's own loseConnection() "
+    "(StringTransportWithDisconnection, loopback, TLS-wrapped transports do); it does so once, and the outcome "
+    "must be the same as with a transport that reports the close later",
+    "a name in an ATYP-3 reply is length-prefixed octets: a resolve answer given as bytes must be exactly those "
+    "octets; given as str it must be those octets under ascii/utf-8/latin-1 with any of the usual error handlers "
+    "(the unchanged tree returns the bytes); a CONNECT whose bound name is not ASCII/UTF-8 must still connect",
+    "dataReceived is never re-entered (no reactor does that): a peer that answers from inside transport.write() "
+    "while the success reply is still being processed is outside the schedules generated here",
     "time at which a failure is reported is not constrained (only that it is reported once the connection is "
     "gone); what is constrained in time is delivery of application bytes: complete at the end of each chunk",
 ]
@@ -169,7 +179,8 @@ def drive_session(case):
     report = case.get("report", "early")
     if report not in ("early", "late-before-hangup", "late-after-hangup"):
         raise HarnessError("unknown report mode %r" % (report,))
-    pipe = SocksPipe(mrep, lambda request: B, report_late=(report != "early"))
+    pipe = SocksPipe(mrep, lambda request: B, report_late=(report != "early"),
+                     sync_disconnect=bool(case.get("sync_close", False)))
     log = _AppLog(pipe)
     if req == "CONNECT":
         d = socks.TorSocksEndpoint(pipe.endpoint, target, port).connect(_make_app(log, hello))
@@ -467,7 +478,16 @@ def _judge_resolve(res, rep, w, pipe):
         return
     ok = False
     if rep["atyp"] == ref.ATYP_DOMAIN:
-        ok = (got == addr) if isinstance(got, bytes) else (got.encode("latin-1", "replace") == addr)
+        if isinstance(got, bytes):
+            ok = (got == addr)
+        elif addr.isascii():
+            ok = (got.encode("latin-1", "replace") == addr)
+        else:
+            # a name is length-prefixed octets; how octets >= 0x80 become text is not the statement's business:
+            # any of the usual decodings of exactly these octets is accepted
+            ok = got in set(addr.decode(c, e) for c in ("ascii", "utf-8", "latin-1")
+                            for e in ("replace", "ignore", "surrogateescape", "backslashreplace"))
+            res.label("resolve-non-ascii-name-returned-as-text")
     else:
         if isinstance(got, bytes) and got == addr:
             ok = True       # packed octets
@@ -485,6 +505,10 @@ def _classify(res, case, pipe, R, app_bytes, succ_end, n_final, mrep):
     rep = case["reply"]
     req = case["req"]
     res.label("req:" + req)
+    if case.get("sync_close"):
+        res.label("transport-reports-own-close-synchronously")
+    if rep["atyp"] == 3 and not bytes.fromhex(rep["addr"]).isascii():
+        res.label("domain-name-with-octets>=0x80")
     if case.get("report", "early") != "early":
         res.label("proxy-endpoint-reports-" + case["report"])
     if mrep != b"\x05\x00":
@@ -545,7 +569,12 @@ NAME_ALPHABET = "abcdefghijklmnopqrstuvwxyz0123456789-."
 
 
 _NAME_LENS = st.one_of(st.sampled_from([0, 1, 2, 3, 63, 254, 255]), st.integers(0, 255), st.integers(1, 30))
-_NAME_PATS = st.text(alphabet=NAME_ALPHABET, min_size=1, max_size=6)
+_ASCII_PATS = st.text(alphabet=NAME_ALPHABET, min_size=1, max_size=6).map(lambda t: t.encode("ascii"))
+# a bound / answered name is 0..255 arbitrary octets on the wire (no NUL): latin-1, UTF-8, invalid UTF-8
+_OCTET_PATS = st.one_of(st.sampled_from([b"\xff", b"caf\xe9.", b"\xc3\xa9x.", b"\xe4\xb8", b"\x80", b"\x01\x7f.",
+                                         b"b\xfccher."]),
+                        st.binary(min_size=1, max_size=6).map(lambda b: bytes(x or 0xff for x in b)))
+_NAME_PATS = st.one_of(_ASCII_PATS, _ASCII_PATS, _OCTET_PATS)
 _ADDR_SEEDS = st.one_of(st.sampled_from([b"\0" * 24, b"\xff" * 24, bytes(range(1, 25)),
                                          bytes.fromhex("20010db8000000000000ff0000428329") + b"\0" * 8]),
                         st.binary(min_size=24, max_size=24))
@@ -559,7 +588,7 @@ def _addr(atyp, seed, nlen, pat):
         return seed[:16]
     if atyp == 3:
         # a short drawn pattern repeated to the drawn length: 255 independent character draws buy nothing
-        return ((pat * (nlen // len(pat) + 1))[:nlen]).encode("ascii")
+        return (pat * (nlen // len(pat) + 1))[:nlen]
     return seed[:nlen % 25]
 
 
@@ -608,6 +637,7 @@ _WRITES = st.lists(st.tuples(st.integers(0, 1 << 20), st.binary(min_size=1, max_
 _BOOL = st.booleans()
 _FRACTION = st.integers(0, 1 << 20)
 _TARGET_IDX = st.integers(0, 5)
+_SYNC = st.sampled_from([False, False, True])
 _REPORTS = st.sampled_from(["early", "early", "early", "late-before-hangup", "late-after-hangup"])
 
 
@@ -644,15 +674,16 @@ def cases(draw):
         writes = [[len(sched) if step & 1 else (step >> 1) % (len(sched) + 1), data.hex()]
                   for step, data in draw(_WRITES)]
     return {"req": req, "target": list(target), "mrep": mrep, "reply": rep, "app": app.hex(), "sched": sched,
-            "cut": cut, "hello": hello.hex(), "writes": writes, "report": draw(_REPORTS)}
+            "cut": cut, "hello": hello.hex(), "writes": writes, "report": draw(_REPORTS), "sync_close": draw(_SYNC)}
 
 
 # --------------------------------------------------------------------------- explicit enumerations
 
-def _case(req, rep, app=b"", sched=None, cut=False, mrep="0500", hello=b"", writes=(), report="early"):
+def _case(req, rep, app=b"", sched=None, cut=False, mrep="0500", hello=b"", writes=(), report="early",
+          sync=False):
     return {"req": req, "target": list(TARGETS[req][0]), "mrep": mrep, "reply": rep, "app": app.hex(),
             "sched": list(sched if sched is not None else [2, 10 ** 6]), "cut": cut, "hello": hello.hex(),
-            "writes": [list(x) for x in writes], "report": report}
+            "writes": [list(x) for x in writes], "report": report, "sync_close": bool(sync)}
 
 
 def _rep(code, atyp, addr, port=0x1234, ver=5):
@@ -672,8 +703,9 @@ def all_codes_cases():
                 n = len(reply_bytes(rep))
                 app = b"HELLO\r\n" if req == "CONNECT" else b""
                 modes = ("early", "late-before-hangup", "late-after-hangup")
-                yield _case(req, rep, app, [2, n + len(app)])
-                yield _case(req, rep, app, [1, 1] + [1] * (n + len(app)), report=modes[(code + atyp + 1) % 3])
+                yield _case(req, rep, app, [2, n + len(app)], sync=(code + atyp) % 2)
+                yield _case(req, rep, app, [1, 1] + [1] * (n + len(app)), report=modes[(code + atyp + 1) % 3],
+                            sync=(code + atyp + 1) % 2)
                 yield _case(req, rep, app, [2, n - 1, 1 + len(app)], writes=[[2, "6162"]],
                             report=modes[(code + atyp) % 3])
         if code:
@@ -681,7 +713,7 @@ def all_codes_cases():
             for atyp in (0, 2, 0xff):
                 rep = _rep(code, atyp, b"\x00" * 4, port=0)
                 n = len(reply_bytes(rep))
-                yield _case("CONNECT", rep, b"", [2, n])
+                yield _case("CONNECT", rep, b"", [2, n], sync=code % 2)
                 yield _case("RESOLVE", rep, b"", [1, 1] + [1] * n, report="late-after-hangup")
 
 
@@ -698,13 +730,14 @@ def method_reply_cases(full=True):
         special = (ver, m) in ((5, 0), (5, 1), (5, 2), (5, 0x80), (5, 0xff), (4, 0), (6, 0), (0, 0), (0xff, 0))
         for i, sched in enumerate(([2, 100], [1, 1, 100])):
             if full or special or (ver + m + i) % 2 == 0:
-                yield _case("CONNECT", rep, b"xyz", sched, mrep=h)
+                yield _case("CONNECT", rep, b"xyz", sched, mrep=h, sync=(ver + m) % 3 == 0)
         if special or (full and ver != 5):
             for req in ("RESOLVE", "RESOLVE_PTR"):
                 yield _case(req, rep, b"", [1, 1, 100], mrep=h)
         if full or special:
             for sched in ([], [1], [1, 1], [2]):
                 yield _case("CONNECT", rep, b"", sched, cut=True, mrep=h)
+            yield _case("RESOLVE", rep, b"", [1, 1], cut=True, mrep=h, sync=True)
 
 
 def compositions(n):
@@ -740,6 +773,9 @@ SHORT_KINDS_QUICK = [
     ("RESOLVE_PTR", _rep(0, 3, b""), b""),                              # 7: shortest possible reply
     ("CONNECT", _rep(5, 1, b"\0\0\0\0", 0), b""),                       # Tor's failure shape
     ("CONNECT", _rep(0x42, 3, b""), b""),                               # 7-byte failure, unknown code
+    ("CONNECT", _rep(5, 1, b"\0\0\0\0", 0), b"", True),                 # failure; transport closes synchronously
+    ("CONNECT", _rep(0, 3, b"\xff"), b"ab"),                            # bound name is not UTF-8
+    ("RESOLVE", _rep(0x42, 3, b"\xe9"), b"", True),
 ]
 SHORT_KINDS_THOROUGH = [
     ("CONNECT", _rep(0, 1, ADDR[1]), b"\x05\x00"),
@@ -757,6 +793,13 @@ SHORT_KINDS_THOROUGH = [
     ("RESOLVE_PTR", _rep(4, 1, b"\0\0\0\0", 0), b""),
     ("RESOLVE", _rep(0xff, 1, b"\0\0\0\0", 0), b""),
 ]
+SHORT_KINDS_THOROUGH += [
+    ("CONNECT", _rep(0, 3, b"caf\xe9"), b"xy", True),
+    ("RESOLVE_PTR", _rep(0, 3, b"\xff\xfe.x"), b""),
+    ("CONNECT", _rep(0, 1, ADDR[1]), b"ab", True),
+    ("CONNECT", _rep(1, 3, b"\x80"), b"a", True),
+    ("RESOLVE", _rep(0, 1, ADDR[1], ver=6), b"", True),
+]
 LONG_KINDS = [
     ("CONNECT", _rep(0, 4, ADDR[4]), b"abc"),                           # 22 + 3
     ("RESOLVE", _rep(0, 4, ADDR[4]), b""),
@@ -770,31 +813,55 @@ LONG_KINDS = [
 def all_segmentations_all_hangups(kinds, max_len):
     """for every prefix of the reply stream: every segmentation of that prefix, then hang-up
     (equivalently: every segmentation of the stream with the hang-up at every chunk boundary)"""
-    for req, rep, app in kinds:
+    for kind in kinds:
+        req, rep, app = kind[:3]
+        sync = kind[3] if len(kind) > 3 else False
         total = len(reply_bytes(rep)) + len(app)
         if total > max_len:
             continue
         hello = b"hi" if req == "CONNECT" else b""
         for m in range(total + 1):
             for comp in compositions(m):
-                yield _case(req, rep, app, [2] + comp, cut=True, hello=hello)
+                yield _case(req, rep, app, [2] + comp, cut=True, hello=hello, sync=sync)
 
 
 def bounded_segmentations_all_hangups(kinds, max_cuts, stride=1):
-    for req, rep, app in kinds:
+    for kind in kinds:
+        req, rep, app = kind[:3]
         total = len(reply_bytes(rep)) + len(app)
         for m in range(0, total + 1, stride):
             for comp in bounded_cut_compositions(m, max_cuts) if m else [[]]:
-                yield _case(req, rep, app, [2] + comp, cut=True)
+                yield _case(req, rep, app, [2] + comp, cut=True, sync=(m % 2 == 1))
 
 
 def one_cut_cases(kinds):
     """every position of a single cut, nothing lost, hang-up at the end; the application writes after the cut"""
-    for req, rep, app in kinds:
+    for kind in kinds:
+        req, rep, app = kind[:3]
         total = len(reply_bytes(rep)) + len(app)
         for c in range(1, total):
             yield _case(req, rep, app, [2, c, total - c], writes=[[1, "70696e67"], [2, "706f6e67"]],
-                        report=("early", "late-before-hangup", "late-after-hangup")[c % 3])
+                        report=("early", "late-before-hangup", "late-after-hangup")[c % 3], sync=(c % 2 == 0))
+
+
+OCTET_NAMES = [b"\xff", b"caf\xe9.example", b"\xc3\xa9.example", b"\x80\x81", b"\x01\x7f", b"b\xfccher.example",
+               b"\xe4\xb8", bytes(range(1, 256))]
+
+
+def octet_name_cases():
+    """ATYP-3 replies whose name holds arbitrary octets (latin-1, valid and invalid UTF-8, all of 0x01..0xff):
+    success and failure, every request type, whole / coalesced with application bytes / byte at a time,
+    both transport close modes"""
+    for name in OCTET_NAMES:
+        for code in (0, 5, 0x42):
+            for req in ("CONNECT", "RESOLVE", "RESOLVE_PTR"):
+                rep = _rep(code, 3, name)
+                n = len(reply_bytes(rep))
+                app = b"HELLO\r\n" if req == "CONNECT" else b""
+                for sync in (False, True):
+                    yield _case(req, rep, app, [2, n + len(app)], sync=sync)
+                    yield _case(req, rep, app, [2, n - 1, 1, len(app) or 1], sync=sync, report="late-after-hangup")
+                yield _case(req, rep, app, [1, 1] + [1] * (n + len(app)))
 
 
 DRIVERS = {"session": drive_session}
@@ -819,6 +886,7 @@ MANIFEST = {
 
 def run(ctx):
     ctx.search("session", cases(), quick=2000, thorough=20000)
+    ctx.enumerate("session", octet_name_cases(), name="octet-names-x-codes-x-request-types-x-close-modes")
     if ctx.quick():
         ctx.enumerate("session", method_reply_cases(full=False), name="method-replies-x-hangups(sample)",
                       exhaustive=False)
@@ -886,6 +954,17 @@ MUTANTS = [
      "            self._sender.connectionLost(Failure(error))\n        self._when_done.fire(Failure(error))",
      "            self._sender.connectionLost(Failure(error))\n            self._when_done = util.SingleObserver()\n"
      "        self._when_done.fire(Failure(error))"),
+    # a transport that reports its own close synchronously must not change which error is reported
+    ("abort-state-reports-the-close-again", _F,
+     "        disconnected,\n        enter=abort,\n        outputs=[],\n",
+     "        disconnected,\n        enter=abort,\n        outputs=[_disconnect],\n"),
+    # names in ATYP-3 replies are octets
+    ("connect-bound-name-must-be-utf8", _F,
+     "            self.reply_ipv4(addr.decode('ascii', 'replace'), port)",
+     "            self.reply_ipv4(addr.decode('utf8'), port)"),
+    ("resolved-name-must-be-ascii", _F,
+     "        else:\n            self.reply_domain_name(addr)\n",
+     "        else:\n            self.reply_domain_name(addr.decode('ascii'))\n"),
     ("resolve-ipv4-answer-reversed", _F,
      "            addr = inet_ntoa(self._data[4:8])", "            addr = inet_ntoa(self._data[4:8][::-1])"),
 ]
